@@ -414,7 +414,7 @@ func boundedValue(c *Ctx, fn *ssa.Function, v ssa.Value, at *ssa.BasicBlock, dep
 
 func ruleV3(c *Ctx, id string) {
 	P, R := c.P, c.R
-	R.Rule(id, "arithmetic on client offsets cannot wrap unnoticed: every uint64 sum of two request-derived quantities that is compared directly is guarded by util.SumOverflows on the same operands, or both operands are bounded", 4)
+	R.Rule(id, "arithmetic on client offsets cannot wrap unnoticed: every uint64 sum of two request-derived quantities that is compared directly is guarded by util.SumOverflows on the same operands, or both operands are bounded", 3)
 	sumOv := P.Func(jrnlPath + "/util.SumOverflows")
 	fns := []string{"inode.(*Inode).Write", "inode.(*Inode).Read", "nfs.(*Nfs).NFSPROC3_COMMIT", "nfs.(*Nfs).NFSPROC3_WRITE", "nfs.(*Nfs).NFSPROC3_READ", "nfs.(*Nfs).NFSPROC3_SETATTR", "simple.(*Inode).Write", "simple.(*Inode).Read", "simple.NFSPROC3_SETATTR_wp"}
 	for _, spec := range fns {
